@@ -581,16 +581,13 @@ func (te *TemplateEngine) renderLoopsNested(content string, lists map[string][]i
 	// 渲染循环
 	if listData, exists := lists[listVar]; exists {
 		for i, item := range listData {
-			// 创建循环上下文变量
-			loopContent := strings.ReplaceAll(blockContent, "{{this}}", values.hold(te.interfaceToString(item)))
-			loopContent = strings.ReplaceAll(loopContent, "{{@index}}", strconv.Itoa(i))
-			loopContent = strings.ReplaceAll(loopContent, "{{@first}}", strconv.FormatBool(i == 0))
-			loopContent = strings.ReplaceAll(loopContent, "{{@last}}", strconv.FormatBool(i == len(listData)-1))
+			loopContent := blockContent
+			itemMap, isMap := item.(map[string]interface{})
 
-			// 如果item是map，处理属性访问
-			if itemMap, ok := item.(map[string]interface{}); ok {
-				// 首先处理嵌套的循环（在替换变量之前）
-				// 为嵌套循环创建新的lists map，包含当前项的列表数据
+			// 首先处理嵌套的循环（在替换当前项的占位符之前）：内层循环体中的 {{this}}/{{@index}}/
+			// {{@first}}/{{@last}} 属于内层循环的当前项，必须由内层循环自己替换。
+			// 嵌套循环遍历的是当前项的列表字段；当前项没有的列表按空列表处理（不输出任何内容）
+			if strings.Contains(loopContent, "{{#each") {
 				nestedLists := make(map[string][]interface{})
 				for key, value := range itemMap {
 					// 检查值是否是列表类型
@@ -598,13 +595,18 @@ func (te *TemplateEngine) renderLoopsNested(content string, lists map[string][]i
 						nestedLists[key] = listValue
 					}
 				}
+				loopContent = te.renderLoopsNested(loopContent, nestedLists, depth+1, values)
+			}
 
-				// 如果有嵌套列表，递归处理嵌套循环
-				if len(nestedLists) > 0 {
-					loopContent = te.renderLoopsNested(loopContent, nestedLists, depth+1, values)
-				}
+			// 创建循环上下文变量
+			loopContent = strings.ReplaceAll(loopContent, "{{this}}", values.hold(te.interfaceToString(item)))
+			loopContent = strings.ReplaceAll(loopContent, "{{@index}}", strconv.Itoa(i))
+			loopContent = strings.ReplaceAll(loopContent, "{{@first}}", strconv.FormatBool(i == 0))
+			loopContent = strings.ReplaceAll(loopContent, "{{@last}}", strconv.FormatBool(i == len(listData)-1))
 
-				// 然后替换普通变量
+			// 如果item是map，处理属性访问
+			if isMap {
+				// 替换普通变量
 				for key, value := range itemMap {
 					placeholder := fmt.Sprintf("{{%s}}", key)
 					// 只替换非列表类型的值
